@@ -53,6 +53,36 @@ SAMPLING_SIZE = {'do_all': 1, 'do_all_exceptions': 1,
 
 HS_BATCH = 1200
 
+# E3 'memoopts': every keyword of extract() at one non-default value
+KW_POINTS = [
+    ['default', {}],
+    ['tag', {'tag': True}],
+    ['encoding', {'encoding': 'utf-8'}],            # examples given as bytes
+    ['as_object', {'as_object': True}],
+    ['extra_letters', {'extra_letters': '_-.'}],
+    ['full_escape', {'full_escape': True}],
+    ['remove_empties', {'remove_empties': True}],
+    ['strip', {'strip': True}],
+    ['variableLengthFrags', {'variableLengthFrags': True}],
+    ['max_patterns', {'max_patterns': 1}],
+    ['min_diff_strings_per_pattern', {'min_diff_strings_per_pattern': 2}],
+    ['min_strings_per_pattern', {'min_strings_per_pattern': 2}],
+    ['size', {'size': 'SAMPLING', 'seed': 0}],      # Size(...) built at call
+    ['seed', {'seed': 1}],
+    ['dialect', {'dialect': 'perl'}],
+    ['verbose', {'verbose': 1}],
+]
+# example sets that share constant fragments made of the characters whose
+# treatment the options change (space, - _ . and punctuation to be escaped)
+KW_MENUS = [
+    [['a b', 'c d'], ['x y z'], ['New York', 'Santa Fe']],
+    [['a-b', 'c-d'], ['x_y', 'x_z', ''], ['a.b', ' a.c ']],
+    [['$1', '$22'], ['(a)', '(b)', ' (a)'], ['a+b', 'a+c', 'x y']],
+]
+
+# wide sets: default-Size thresholds (do_all = 100, do_all_exceptions = 4000)
+BIG_KS = [100, 101, 4000, 4001]
+
 # an unrelated call made in the middle of every set case
 FOREIGN = (['q_9-', 'Z.z', ' _ ', 'é-é'],
            {'extra_letters': '_-.', 'dialect': 'perl', 'tag': True,
@@ -112,9 +142,24 @@ class C14(Check):
             '+ each element repeated x2, x3 + all doubled + repeated call + '
             'call after an unrelated call in a pristine module + seeded calls '
             'from two generator pre-states, non-trivial = at least two distinct examples and a '
-            'non-empty result; memo layer: one case per (6-set menu, 3 option '
+            'non-empty result; wide layer: one case per (value family, '
+            'template, widening value, K, option point) with K distinct '
+            'values in one position for K either side of each size constant '
+            'of rexpy (max_strings_in_group 10/11 -> K 10..13, '
+            'max_punc_in_group 5 -> K 4..7, MAX_VRLE_RANGE 2 -> run lengths '
+            '1..K for K 2..5, MAX_GROUPS 99 -> 98..101 class runs, default '
+            'Size do_all 100 / do_all_exceptions 4000 -> 100, 101, 4000, 4001 '
+            'examples); K! orders cannot be enumerated, so a deviation-bounded '
+            'set is: identity, reverse, every rotation, every single adjacent '
+            'transposition, widening value moved to every position (<= 3K), '
+            'plus dict / repeated dict / repeated list / Series forms of four '
+            'of them; memoopts layer: one case per (3-set menu, unordered '
+            'pair of the 16 option points = every extract() keyword at one '
+            'non-default value + default) = 6 ops, BFS depth <= 3, i.e. at '
+            'most two distinct option points per history; memo layer: one case per (6-set menu, 3 option '
             'points) = 18 ops, BFS depth<=3 (4 thorough, reduced menu), state '
-            '= frozenset of memo keys + global PRNG state; prng layers: one '
+            '= fingerprint of every state-carrying global / class attribute '
+            'of the rexpy module + global PRNG state; prng layers: one '
             'case per (set of 3-5 examples, Size point, seed), non-trivial = '
             'at least one draw from the generator happened; hashseed layer: '
             'batches of jobs run in three child interpreters')
@@ -131,8 +176,10 @@ class C14(Check):
         'unseeded sampled calls are random by design: no clause',
         'every case runs in a fresh instance of the rexpy module (source '
         're-executed into a new namespace), so all module-level state starts '
-        'pristine; inside a memo history the from-scratch state is a cleared '
-        'memo, nCalls = 0 and random.seed(4242)',
+        'pristine; inside a history the from-scratch state restores every '
+        'dict / list / set / scalar global and class attribute of that module '
+        'to its pristine value (found by introspection, so a new cache is '
+        'covered too) and random.seed(4242)',
         'a case that uses more than 20 s (90 s for history / child-process '
         'cases) of CPU is reported as uncaught:CaseTimeout; after 3 such '
         'time-outs a worker stops executing further cases',
@@ -157,7 +204,11 @@ class C14(Check):
              ('set2', 'pairs, default options: + both orders'),
              ('set2opt', 'pairs x 7 non-default option points'),
              ('set3', 'triples, default options: all 6 orders'),
+             ('wide', 'sets with K distinct values in one position, K either '
+                      'side of every size constant in rexpy; bounded orders'),
              ('memo', 'E3: histories of extract() calls sharing the memo'),
+             ('memoopts', 'E3: histories over every extract() keyword, two '
+                          'option points per history, depth <= 3'),
              ('prng', 'seeded sampled calls, real generator, 2 pre-states'),
              ('prngfake', 'E2: every random.sample answer, bracket invariant'),
              ('hashseed', 'same jobs under PYTHONHASHSEED 0,1,2 (children)')]
@@ -176,6 +227,16 @@ class C14(Check):
         if layer.startswith('set'):
             for c in set_layer_cases(tier, layer):
                 yield c
+        elif layer == 'wide':
+            for c in self.wide_cases(th):
+                yield c
+        elif layer == 'memoopts':
+            n = len(KW_POINTS)
+            for mi in range(len(KW_MENUS)):
+                for a in range(n):
+                    for b in range(a + 1, n):
+                        yield {'k': 'kw', 'menu': mi, 'a': a, 'b': b,
+                               'depth': 3}
         elif layer == 'memo':
             triples = OPT_TRIPLES if th else OPT_TRIPLES[:2]
             for mi in range(len(MENUS)):
@@ -215,6 +276,24 @@ class C14(Check):
         else:
             raise KeyError(layer)
 
+    def wide_cases(self, th):
+        for fi, fam in enumerate(AB.WIDE_FAMILIES):
+            name, const, lim, Ks, gen, wideners, tpls = fam
+            for ti, tpl in enumerate(tpls):
+                for w in wideners:
+                    for K in Ks:
+                        opts = [0, 1, 2] if (ti == 1 or th) else [0]
+                        for o in opts:
+                            yield {'k': 'wide', 'fam': fi, 'tpl': ti, 'w': w,
+                                   'K': K, 'o': o}
+        # MAX_GROUPS = 99: examples with 98..101 character-class runs
+        for R in (98, 99, 100, 101):
+            for tok in (['a', '-'], ['a1', '-'], ['a', ' ']):
+                for o in ([0, 1, 4] if th else [0, 4]):
+                    yield {'k': 'wide', 'long': R, 'tok': tok, 'o': o}
+        for K in BIG_KS:
+            yield {'k': 'wide', 'big': K}
+
     # -------------------------------------------------------------- worker
     def setup_worker(self, tier):
         import random
@@ -239,18 +318,19 @@ class C14(Check):
         m.__file__ = self.src_path
         m.__package__ = 'tdda.rexpy'
         exec(self.code, m.__dict__)
+        m.__mc_pristine__ = AB.state_snapshot(m)
         return m
 
     def teardown_worker(self):
         pass
 
     def reset(self):
+        """from-scratch state inside a case: every state-carrying global /
+        class attribute of the (per-case fresh) rexpy module put back to its
+        pristine value, fixed generator state"""
         rx = self.rexpy
+        AB.state_restore(rx, rx.__mc_pristine__)
         rx.random = self.real_random
-        if hasattr(rx, 'memo'):
-            rx.memo.clear()
-        if hasattr(rx, 'nCalls'):
-            rx.nCalls = 0
         self.random.seed(4242)
 
     def call(self, fn, *a, **kw):
@@ -260,6 +340,8 @@ class C14(Check):
             with contextlib.redirect_stdout(out), \
                     contextlib.redirect_stderr(out):
                 r = fn(*a, **kw)
+            if hasattr(r, 'results'):           # as_object=True
+                r = r.results.rex if r.results else []
             return list(r)
         except Exception as e:
             return ['!exception', type(e).__name__]
@@ -275,7 +357,8 @@ class C14(Check):
             R.unspec += 1
             R.out('not-run:after-%d-timeouts' % AB.Watchdog.max_trips)
             return R
-        with AB.Watchdog(90 if case['k'] in ('memo', 'hs', 'fake') else 20):
+        with AB.Watchdog(90 if case['k'] in ('memo', 'hs', 'fake', 'kw', 'wide')
+                         else 20):
             return self.run_case_(case)
 
     def run_case_(self, case):
@@ -285,6 +368,10 @@ class C14(Check):
             return self.run_set(case)
         if k == 'memo':
             return self.run_memo(case)
+        if k == 'wide':
+            return self.run_wide(case)
+        if k == 'kw':
+            return self.run_kw(case)
         if k == 'prng':
             return self.run_prng(case)
         if k == 'fake':
@@ -412,9 +499,8 @@ class C14(Check):
         return self.ex(list(xs), AB.OPTIONS[o])
 
     def canon(self):
-        rx = self.rexpy
-        keys = frozenset(rx.memo.keys()) if hasattr(rx, 'memo') else None
-        return (keys, hash(self.random.getstate()))
+        return (AB.state_fingerprint(self.rexpy),
+                hash(self.random.getstate()))
 
     def run_memo(self, case):
         R = Res()
@@ -475,6 +561,228 @@ class C14(Check):
         R.nontrivial = len(seen) > 1
         R.out('memo:states=%d:depth=%d:%s' % (len(seen), maxdepth,
                                               'differs' if bad else 'same'))
+        return R
+
+    # ------------------------------------------------ (a') wide sets
+    def run_wide(self, case):
+        R = Res()
+        pd = self.pd
+        self.reset()
+        if 'big' in case:
+            return self.run_big(R, case['big'])
+        o = case['o']
+        opts = AB.OPTIONS[o]
+        if 'long' in case:
+            Rn, tok = case['long'], case['tok']
+            tok2 = [tok[0].replace('a', 'b'), tok[1]]
+            xs = [AB.long_string(Rn, tok), AB.long_string(Rn, tok2),
+                  AB.long_string(Rn, tok, '\n' if tok[1] != ' ' else '_'),
+                  tok[0] + tok[1] + tok[0]]
+            K, wpos = len(xs), len(xs) - 1
+            const, beyond, fam = 'MAX_GROUPS', Rn > 99, 'long:%s' % ''.join(tok)
+            detail = {'runs': Rn, 'tokens': tok}
+        else:
+            f = AB.WIDE_FAMILIES[case['fam']]
+            K = case['K']
+            xs = AB.wide_examples(f, K, case['w'], f[6][case['tpl']])
+            wpos = K - 1
+            const, beyond, fam = f[1], K > f[2], f[0]
+            detail = {'family': fam, 'K': K, 'widening_value': xs[-1]}
+        if len(set(xs)) != len(xs):
+            raise RuntimeError('wide family yields duplicates: %r' % (xs,))
+        base = self.ex(list(xs), opts)
+        R.ev()
+        R.nontrivial = base[:1] != ['!exception'] and len(base) > 0
+        R.out('wide:%s:%s:%s:rex=%d' % (fam, const, 'beyond' if beyond
+                                        else 'within', len(base)))
+
+        def cmp(group, label, got, inp):
+            R.ev()
+            if got != base:
+                kind = ('reordered' if sorted(map(str, got))
+                        == sorted(map(str, base)) else 'different')
+                short = inp if len(str(inp)) < 600 else str(inp)[:600]
+                R.viol('wide:%s:%s:%s:%s' % (group, kind, const,
+                                             'beyond' if beyond else 'within'),
+                       'same-multiset-same-result',
+                       dict(detail, examples=xs if len(str(xs)) < 600 else
+                            [x[:40] for x in xs], options=opts, variant=label,
+                            input=short, got=[g[:200] for g in got],
+                            base=[g[:200] for g in base]), label)
+
+        orders = AB.orders_bounded(K, wpos)
+        for label, p in orders:
+            if label == 'identity':
+                continue
+            inp = [xs[i] for i in p]
+            cmp('order', label, self.ex(inp, opts), inp)
+        for label, p in orders:
+            if label not in ('identity', 'reverse', 'widener@0',
+                             'rotate1'):
+                continue
+            inp = [xs[i] for i in p]
+            grp = 'form' if label == 'identity' else 'order'
+            cmp(grp, 'dict:' + label, self.ex(dict((x, 1) for x in inp), opts),
+                {'dict': inp})
+            d = dict((x, 2) for x in inp)
+            d[xs[wpos]] = 3
+            cmp('repeat' if label == 'identity' else 'order',
+                'repeat-dict:' + label, self.ex(d, opts), {'dict': d})
+            rep = inp + [xs[wpos]] * 2 + inp[:2]
+            cmp('repeat' if label == 'identity' else 'order',
+                'repeat-list:' + label, self.ex(rep, opts), rep)
+            if o == 0:
+                col = inp[:1] + [None] + inp[1:] + inp[:1]
+                cmp(grp, 'series:' + label,
+                    self.call(self.rexpy.pdextract,
+                              pd.Series(col, dtype=object)), {'series': col})
+        return R
+
+    def run_big(self, R, K):
+        """default Size: do_all = 100, do_all_exceptions = 4000 (sampling
+        starts above 4000 distinct examples)"""
+        rnd = self.random
+        xs = ['k%04d' % i for i in range(K - 1)] + ['kx%03d' % 7]
+        sampled = K > 4000
+        variants = [('identity', list(xs)), ('reverse', xs[::-1]),
+                    ('rotate1', xs[1:] + xs[:1]),
+                    ('widener@0', xs[-1:] + xs[:-1])]
+        obs = []
+        for label, inp in variants:
+            for pre in ((100, 200) if label == 'identity' else (100,)):
+                self.reset()
+                rnd.seed(pre)
+                rec = AB.RecRandom()
+                self.rexpy.random = rec
+                before = rnd.getstate()
+                try:
+                    r = self.ex(inp, {}, seed=0)
+                finally:
+                    self.rexpy.random = self.real_random
+                R.ev()
+                faults = AB.bracket_faults(rec.log, 0)
+                root = '+'.join(faults) or 'no-bracket-fault'
+                det = {'examples': 'k0000..k%04d + kx007 (%d strings)'
+                       % (K - 2, K), 'order': label, 'seed': 0,
+                       'size': 'default', 'pre': 'random.seed(%d)' % pre}
+                if faults:
+                    R.viol('seeded-sampled:%s' % root,
+                           'draws-inside-seed-bracket',
+                           dict(det, faults=faults), label)
+                if rnd.getstate() != before:
+                    R.viol('seeded-sampled:%s' % root,
+                           'global-state-restored', det, label)
+                obs.append((label, pre, r, AB.n_draws(rec.log)))
+        R.nontrivial = any(o[3] for o in obs) or not sampled
+        R.out('big:K=%d:draws=%s:rex=%d' % (
+            K, '>0' if any(o[3] for o in obs) else '0', len(obs[0][2])))
+        for label, pre, r, nd in obs[1:]:
+            if r != obs[0][2]:
+                R.viol('wide:%s:%s:do_all_exceptions:%s' % (
+                    'order' if label != 'identity' else 'prestate',
+                    'different', 'beyond' if sampled else 'within'),
+                    'same-multiset-same-result' if label != 'identity'
+                    else 'seeded-result-reproducible',
+                    {'K': K, 'variant': label, 'pre': pre, 'got': r,
+                     'base': obs[0][2]}, label)
+        if not sampled:
+            self.reset()
+            r = self.ex(list(xs), {})
+            R.ev()
+            if r != obs[0][2]:
+                R.viol('wide:seed:different:do_all_exceptions:within',
+                       'same-multiset-same-result',
+                       {'K': K, 'unseeded': r, 'seeded': obs[0][2]}, 'unseeded')
+        return R
+
+    # ------------------------------------------ (b') E3 over all keywords
+    def kw_run(self, xs, point):
+        name, kw = point
+        kw = dict(kw)
+        inp = list(xs)
+        if kw.get('size') == 'SAMPLING':
+            kw['size'] = self.rexpy.Size(**SAMPLING_SIZE)
+        if 'encoding' in kw:
+            inp = [x.encode(kw['encoding']) for x in inp]
+        return self.call(self.rexpy.extract, inp, **kw)
+
+    def run_kw(self, case):
+        R = Res()
+        sets = KW_MENUS[case['menu']]
+        pts = [KW_POINTS[case['a']], KW_POINTS[case['b']]]
+        ops = [(xs, pt) for xs in sets for pt in pts]
+        depth = case['depth']
+        ref = []
+        for xs, pt in ops:
+            self.reset()
+            ref.append(self.kw_run(xs, pt))
+            R.evals += 1
+        self.reset()
+        seen = {self.canon()}
+        frontier = [()]
+        transitions = 0
+        maxdepth = 0
+        bad = set()
+
+        def fresh_run(hist_ops, op):
+            self.reset()
+            for h in hist_ops:
+                self.kw_run(*h)
+            R.evals += len(hist_ops) + 1
+            return self.kw_run(*op)
+
+        while frontier:
+            nxt = []
+            for hist in frontier:
+                if len(hist) >= depth:
+                    continue
+                for i, op in enumerate(ops):
+                    real = fresh_run([ops[j] for j in hist], op)
+                    k = self.canon()
+                    transitions += 1
+                    if real != ref[i]:
+                        # which option is essential?  (root-cause narrowing)
+                        dflt = KW_POINTS[0]
+                        hops = [ops[j] for j in hist]
+                        # history calls whose option is essential: putting
+                        # that one call back to default options cures it
+                        ess = set()
+                        for idx, h in enumerate(hops):
+                            alt = list(hops)
+                            alt[idx] = (h[0], dflt)
+                            if h[1][0] != 'default' and \
+                                    fresh_run(alt, op) == ref[i]:
+                                ess.add(h[1][0])
+                        hnames = sorted(ess)
+                        h_ess = bool(ess)
+                        # same history, op with default options
+                        self.reset()
+                        ref0 = self.kw_run(op[0], dflt)
+                        r2 = fresh_run(hops, (op[0], dflt))
+                        o_ess = (r2 == ref0)
+                        sig = 'history:%s-then-%s' % (
+                            '+'.join(hnames) if h_ess else '*',
+                            op[1][0] if o_ess else '*')
+                        if sig not in bad:
+                            bad.add(sig)
+                            R.viol(sig, 'independent-of-preceding-calls',
+                                   {'history': [[h[0], h[1][1]] for h in hops],
+                                    'op': [op[0], op[1][1]], 'got': real,
+                                    'from_pristine_state': ref[i],
+                                    'sampling_size': SAMPLING_SIZE},
+                                   [list(hist), i])
+                    if k not in seen:
+                        seen.add(k)
+                        nxt.append(hist + (i,))
+                        maxdepth = max(maxdepth, len(hist) + 1)
+            frontier = nxt
+        R.states = len(seen)
+        R.transitions = transitions
+        R.checked = transitions
+        R.nontrivial = len(seen) > 1
+        R.out('kw:%s+%s:states=%d:depth=%d:%s' % (
+            pts[0][0], pts[1][0], min(len(seen), 99), maxdepth,
+            'differs' if bad else 'same'))
         return R
 
     # ------------------------------------------------- (c) real generator
